@@ -351,6 +351,10 @@ func (muxerSlice) Gen(r *rand.Rand, _ int, tier string) ([]string, []string) {
 		}
 	}
 	ops = append(ops, "snap")
+	if r.Intn(3) == 0 {
+		ops = append(ops, "close")
+		tags = append(tags, "close")
+	}
 	if sawReq {
 		tags = append(tags, "ll-requests")
 	}
